@@ -1,8 +1,10 @@
 (* GridModel.v — executable model of grid evaluation (C17), polymorphic in [Arith]. No proofs in this file.
    Sources modelled, statement by statement:
      include/photospline/detail/grideval.h : splinetable::grideval
-     src/fitter/splineutil.c               : bspline (identical, token for token, to src/core/bspline.cpp's bspline,
-                                             which is EvalModel.bspline), bsplinebasis, slicemultiply
+     src/fitter/splineutil.c               : bspline ([bspline_guarded]: since fix 33ef56f the static function drops a
+                                             Cox-de Boor term whose denominator vanishes; before that it was, token for
+                                             token, src/core/bspline.cpp's bspline = EvalModel.bspline, which still
+                                             models the core function), bsplinebasis, slicemultiply
      include/photospline/splinetable.h     : photospline::ndsparse (constructor checks, insertEntry)
    The n-dimensional sparse array [struct ndsparse] is what it is in the code: a list of rows (index tuple, value)
    plus the index ranges. CHOLMOD (an external library, trusted) is modelled by what its documentation states:
@@ -53,11 +55,30 @@ Definition nd_get (a : ndsparse) (g : list nat) : K :=
 Definition nd_listed (a : ndsparse) (g : list nat) : bool :=
   existsb (fun e => idx_eqb (fst e) g) (nd_entries a).
 
+(** * splineutil.c: static double bspline(knots, x, i, n)
+      double a = 0, b = 0;
+      if (n == 0) return (x >= knots[i] && x < knots[i+1]) ? 1.0 : 0.0;
+      if (knots[i+n]   != knots[i])   a = (x - knots[i])*bspline(knots, x, i, n-1) / (knots[i+n] - knots[i]);
+      if (knots[i+n+1] != knots[i+1]) b = (knots[i+n+1] - x)*bspline(knots, x, i+1, n-1) / (knots[i+n+1] - knots[i+1]);
+      return a + b;
+    C's [p != q] on doubles is [negb (eqbK p q)] (true when either is NaN, false for +0 against -0). *)
+Fixpoint bspline_guarded (kn : Z -> K) (n : nat) (x : K) (i : Z) : K :=
+  match n with
+  | O => if geb x (kn i) && ltb x (kn (i + 1)%Z) then one else zero
+  | S n1 =>
+      let nz := Z.of_nat n in
+      add (if eqbK (kn (i + nz)%Z) (kn i) then zero
+           else div (mul (sub x (kn i)) (bspline_guarded kn n1 x i)) (sub (kn (i + nz)%Z) (kn i)))
+          (if eqbK (kn (i + nz + 1)%Z) (kn (i + 1)%Z) then zero
+           else div (mul (sub (kn (i + nz + 1)%Z) x) (bspline_guarded kn n1 x (i + 1)%Z))
+                    (sub (kn (i + nz + 1)%Z) (kn (i + 1)%Z)))
+  end.
+
 (** * bsplinebasis(knots, nknots, x, npts, order): npts rows, nsplines = nknots-order-1 columns,
       entry (row, col) = bspline(knots, x[row], col, order) *)
 Definition nsplines (d : @dimn A) : nat := Z.to_nat (d_nknots d - Z.of_nat (d_order d) - 1).
 Definition basis_matrix (d : dimn) (xs : list K) : list (list K) :=
-  map (fun x => map (fun col => bspline (d_kn d) (d_order d) x (Z.of_nat col)) (seq 0 (nsplines d))) xs.
+  map (fun x => map (fun col => bspline_guarded (d_kn d) (d_order d) x (Z.of_nat col)) (seq 0 (nsplines d))) xs.
 Definition mget (m : list (list K)) (r c : nat) : K := nth c (nth r m []) zero.
 
 (** * slicemultiply(a, b, dim) with bt = transpose(b) given as the list of its rows [bt] (npts rows) and
